@@ -544,7 +544,7 @@ func busGen(c *ctx) {
 	c.notes["single_writes_with_full_snapshot"] = singles
 
 	// Part A2 (thorough): EVERY address (outside FF10-FF3F) x 8 values from 4 states, a light snapshot after every write
-	// and a full one every 64 writes (a stray change persists, so the next full snapshot shows it).
+	// and a full one every 16 writes (a stray change persists, so the next full snapshot shows it).
 	if c.thorough() {
 		vals := []int{0x00, 0xff, 0x55, 0xaa, 0x01, 0x80, 0x3c, 0xc3}
 		n := 0
@@ -570,7 +570,7 @@ func busGen(c *ctx) {
 					x.do(fmt.Sprintf("w %04x %02x", a, v))
 					x.do(fmt.Sprintf("ls %04x", a))
 					n++
-					if n%64 == 0 || a >= 0xff00 && a < 0xff80 && vi%4 == 0 {
+					if n%16 == 0 || a >= 0xff00 && a < 0xff80 && vi%4 == 0 {
 						x.do("snap")
 					}
 					x.settle(a, v)
@@ -593,9 +593,12 @@ func busGen(c *ctx) {
 		if lcd == 1 && q%8 != 7 {
 			x.do("tp") // the first PPU tick precedes any OAM access of a real CPU
 		}
+		// With the LCD on the sequence follows the real schedule around the OAM-bug state: the CPU calls
+		// oam.Corrupt() right after every access that may have set a flag (any FE00-FEFF access, incl. the reads
+		// of a snapshot), and a PPU tick follows the cycle that wrote LCDC.  (ppuLastAccess is modelled for the
+		// mode-2 sprite scan only; the rendering fetches of mode 3 belong to C15.)
 		cor := func(a int) {
-			// the CPU calls oam.Corrupt() after every micro-operation
-			if lcd == 1 && a >= 0xfe00 && a < 0xff00 && c.rng.chance(90) {
+			if lcd == 1 && a >= 0xfe00 && a < 0xff00 {
 				x.do("cor")
 			}
 		}
@@ -609,6 +612,9 @@ func busGen(c *ctx) {
 				}
 				x.do(fmt.Sprintf("w %04x %02x", a, v))
 				cor(a)
+				if lcd == 1 && a == 0xff40 {
+					x.do("tp")
+				}
 				if r.chance(50) {
 					x.do(fmt.Sprintf("r %04x", a))
 					cor(a)
@@ -619,6 +625,7 @@ func busGen(c *ctx) {
 				cor(a)
 			case k < 69:
 				x.do("snap")
+				cor(0xfe00)
 			case k < 76:
 				for j := 1 + r.intn(40); j > 0; j-- {
 					x.do("tm")
@@ -647,6 +654,7 @@ func busGen(c *ctx) {
 			default:
 				a := x.randAddr()
 				x.do(fmt.Sprintf("ls %04x", a))
+				cor(0xfe00)
 			}
 		}
 		x.do("snap")
